@@ -246,7 +246,7 @@ func expAssignMerge(tree *ParserT) error {
 	}
 
 	rightVal := right.Value
-	if right.Primitive != primitives.String && reflect.TypeOf(rightVal).Kind() == reflect.String {
+	if right.Primitive != primitives.String && rightVal != nil && reflect.TypeOf(rightVal).Kind() == reflect.String {
 		rightVal, err = lang.UnmarshalDataBuffered(tree.p, []byte(rightVal.(string)), right.DataType)
 		if err != nil {
 			return err
